@@ -12,7 +12,9 @@ NINT_B = [-1, -24, -25, -256, -257, -65536, -65537, -2**32, -2**32 - 1, -2**64]
 LEN_B = [0, 1, 23, 24, 255, 256]
 LEN_BIG = [65535, 65536]
 TXT = ["", "a", "é", "€𝄞", "yes", "null", "~", "0x1F", "1e3", "1:30", " lead", "trail ", "a: b", "#x", "multi\nline",
-       "x" * 23, "x" * 24, "x" * 255, "x" * 256]
+       "x" * 23, "x" * 24, "x" * 255, "x" * 256,
+       "nel\x85next", "ls\u2028ps\u2029", "\ufeffbom", "del\x7f", "tab\there", "cr\r\nlf", "nul\x00byte", "esc\x1b[0m", "'quoted' \"both\"", "- dash", "? q", "%TAG",
+       "& anchor *alias", "!!str tag", "{flow: [1, 2]}", "@at `tick`", "long " + "word " * 40, "trailing space \n", "\n", "\U0001F600"]
 ALG5 = ["cose-alg-sha-256", "cose-alg-sha-384", "cose-alg-sha-512", "cose-alg-shake128", "cose-alg-shake256"]
 SIGALGS = ["cose-alg-es-256", "cose-alg-es-384", "cose-alg-es-521", "cose-alg-eddsa", "cose-alg-vs-hash-eddsa"]
 ENCALGS = ["cose-alg-aes-gcm-256", "cose-alg-aes-gcm-128", "cose-alg-aes-gcm-192"]
